@@ -13,15 +13,18 @@ from .c04 import layout
 
 LEVEL = "other"
 EXPLANATION = (
-    "R1 symbolic length domain (sa/lengths.py): for every encoder, on every pair of compatible paths, the linear form returned by size() equals the "
-    "length of the bytes built by encode() (terms: collection sizes, UTF-8 byte counts, per-element sums with indicator conditions); for the six 0xC0 "
-    "sub-encoders len(encode) == non_repeat_size + repeat_count*repeat_size; the wrappers add exactly their sub-header struct. R2 the header carries "
-    "that size: AT5 data_length == inner-header size + message_length + CRC length in encoder and decoder. R3 bit-provenance bijection between each "
-    "encoder and its decoder: every bit a decoder field reads is the bit the encoder fills from the attribute of the same name (enum .value, bool, "
-    "affine pairs inverse of each other, tagged unions case by case); header prefixes written by the encoder are compared by the decoder. R4 the read "
-    "path consumes exactly the announced lengths (C13 re-used). R5 registry: every Message class of a generation is registered under its module's id "
-    "with the encoder and decoder of that same module, no id twice, equal key sets. R6 sub-length bookkeeping of the 0x1F and 0xC0 wrappers. R7 optional "
-    "numeric fields are tested with `is None` in encoders when the falsy value is encodable. Value-level equality for every field value is not decided."
+    "R1 symbolic length domain (sa/lengths.py): for every encoder, on every pair of compatible paths, the linear form returned by size() equals "
+    "the length of the bytes built by encode() (terms: collection sizes, UTF-8 byte counts, per-element sums with indicator conditions); for the "
+    "six 0xC0 sub-encoders len(encode) == non_repeat_size + repeat_count*repeat_size; the wrappers add exactly their sub-header struct. R1 also: "
+    "every length-prefixed string announces len() of exactly the bytes appended next. R8 request/message discrimination: each decoder's request "
+    "test, folded under the header values its encoder announces, accepts every request form and no message form (zero records included). R2 the "
+    "header carries that size: AT5 data_length == inner-header size + message_length + CRC length in encoder and decoder. R3 bit-provenance "
+    "bijection between each encoder and its decoder: every bit a decoder field reads is the bit the encoder fills from the attribute of the same "
+    "name (enum .value, bool, affine pairs inverse of each other, tagged unions case by case); header prefixes written by the encoder are "
+    "compared by the decoder. R4 the read path consumes exactly the announced lengths (C13 re-used). R5 registry: every Message class of a "
+    "generation is registered under its module's id with the encoder and decoder of that same module, no id twice, equal key sets. R6 sub-length "
+    "bookkeeping of the 0x1F and 0xC0 wrappers. R7 optional numeric fields are tested with `is None` in encoders when the falsy value is "
+    "encodable. Value-level equality for every field value is not decided."
 )
 ASSUMPTIONS = ["struct pack/unpack layout as computed from the literal format strings", "a message object is an instance of exactly one class of its encoder's union annotation"]
 FLOORS = {"C03.R8": 20, "C03.R1": 30, "C03.R2": 8, "C03.R3": 120, "C03.R4": 8, "C03.R5": 40, "C03.R6": 8, "C03.R7": 4}
